@@ -12985,3 +12985,34 @@ impl PeerConnection {
         Ok(())
     }
 }
+
+/// Verification hook: every `RtpTransport` object this connection holds — the
+/// primary transport first, then the per-section transports — and, for each
+/// transceiver (in order), the transport its media section is attached to.
+/// Read-only.
+#[cfg(rustrtc_verif)]
+impl PeerConnection {
+    pub fn verif_rtp_transports(&self) -> (Vec<Arc<RtpTransport>>, Vec<Option<Arc<RtpTransport>>>) {
+        let mut held = Vec::new();
+        if let Some(t) = self.inner.rtp_transport.lock().clone() {
+            held.push(t);
+        }
+        let mut extra: Vec<(u64, Arc<RtpTransport>)> = self
+            .inner
+            .rtp_media_transports
+            .lock()
+            .iter()
+            .map(|(k, t)| (*k, t.clone()))
+            .collect();
+        extra.sort_by_key(|e| e.0);
+        held.extend(extra.into_iter().map(|e| e.1));
+        let attached = self
+            .inner
+            .transceivers
+            .lock()
+            .iter()
+            .map(|t| t.rtp_transport.lock().as_ref().and_then(|w| w.upgrade()))
+            .collect();
+        (held, attached)
+    }
+}
